@@ -121,6 +121,37 @@ class VObj(V):
         return f"Obj<{self.cls}>{self.fields}"
 
 
+SEG_IDS = {"": 0, ".": 1, "..": 2}
+
+
+def seg_id(text):
+    """path segments are opaque values; the three that path algebra distinguishes have fixed ids"""
+    if text not in SEG_IDS:
+        SEG_IDS[text] = 3 + len(SEG_IDS)
+    return SEG_IDS[text]
+
+
+class VSeg(V):
+    """one path segment (an opaque string value identified by an integer id)"""
+
+    def __init__(self, t):
+        self.t = iv(t) if isinstance(t, int) else t
+
+    def __repr__(self):
+        return f"Seg({self.t})"
+
+
+class VSList(V):
+    """a list of path segments of symbolic length: a mutable holder of a view over segment ids"""
+
+    def __init__(self, view, fresh=True):
+        self.view = view
+        self.fresh = fresh
+
+    def __repr__(self):
+        return f"SegList({self.view})"
+
+
 class VStream(V):
     """an output buffer that is only appended to inside a loop and read after it: its content is
     not stored; every emission is checked against the specification's step function and advances
